@@ -6,13 +6,18 @@ Correspondence
     against `Model/Anneal.lean` (run on IEEE doubles, compared bit for bit);
   * proposal scale: real sampler objects (`sampler_factory`) whose `sample()` is called with a stub
     state and injected acceptance decisions, against `Model/StdAdapt.lean` (run on float32, bit for bit);
-  * real short fits / personalisations with call-through recording of both schedules.
+  * real short fits / personalisations with call-through recording of both schedules;
+  * composition of the loops (`Model/FitLoop.lean`): real short fits and mean/mode-posterior personalisations whose
+    sampler calls (with the `temperature_inv` they receive), maximisation steps (burn-in flag, memory-less or not),
+    kept draws and temperature updates are recorded in call order and compared, event by event and bit for bit,
+    with the model's event list.
 The property's own predicate is evaluated on the implementation's behaviour independently of Lean.
 """
 from __future__ import annotations
 
 import itertools
 import math
+import re
 import warnings
 from fractions import Fraction
 
@@ -24,20 +29,29 @@ LEAN = dict(
     props="LeaspyVerif.Props.C19",
     driver="drivers/C19.lean",
     harness="c19_schedules.py",
-    extra_modules=["LeaspyVerif.Model.Anneal", "LeaspyVerif.Model.StdAdapt"],
+    extra_modules=["LeaspyVerif.Model.Anneal", "LeaspyVerif.Model.StdAdapt", "LeaspyVerif.Model.Saem",
+                   "LeaspyVerif.Model.FitLoop"],
     theorems=["accepted_runs_to_completion", "run_spec", "temp_start", "temp_ge_one", "temp_antitone",
               "temp_antitone_le", "temp_changes_only_at_multiples", "temp_closed_form",
               "clamp_is_noop_in_exact_arithmetic", "temp_one_after_partial", "temp_one_from_last_boundary",
               "temp_one_after_counterexample", "period_zero_counterexample", "no_anneal_const_one", "accepted_iff",
               "std_factor_exact", "counter_counts_calls", "window_is_last_L", "window_length",
               "window_is_last_L_decisions", "std_pos", "std_changes_only_at_multiples",
-              "std_only_out_of_band", "trace_spec"],
+              "std_only_out_of_band", "trace_spec",
+              "loop_run_spec", "samplers_receive_previous_temperature",
+              "first_iteration_samples_at_initial_temperature", "sampler_tinv_in_unit_interval",
+              "sampler_tinv_monotone", "sampler_tinv_one_after_annealing_partial",
+              "sampler_tinv_one_without_annealing", "sampler_tinv_one_after_annealing_counterexample",
+              "one_call_each_per_iteration", "mstep_flags", "personalize_keeps_iff", "personalize_kept_count"],
     trusted_extra=[
         "theorems are over an arbitrary ordered field (exact arithmetic); the executable instances are IEEE double "
         "(temperature) and float32 (proposal scale), compared bit for bit with python/torch",
         "torch semantics assumed by Params.ofDoubles (checked by the bitwise comparison): float32 mean = sum / count, "
         "python scalars rounded to float32 before `<`, `>` and `*=`",
         "Lean Float/Float32 `+ - * / <` are the C operations on IEEE binary64/binary32",
+        "loop composition: the outcome of `random.shuffle` is an input of the model (hypothesis `ValidOrder`: a permutation of "
+        "all latent variables; checked on every recorded run); `temperature_inv` is modelled as `1 / temperature` "
+        "(the attribute is re-assigned at every change; checked bitwise)",
     ],
     assumptions=[
         "default (non-oscillating) annealing scheme; finite initial temperature; n_plateau a python int "
@@ -46,6 +60,9 @@ LEAN = dict(
         "the scale clause of the property says nothing about it, reported in the evidence as `window0`)",
         "float32 underflow/overflow of the scale after ~1e3 consecutive adaptations in one direction is outside the "
         "exact-arithmetic theorems and not generated",
+        "loop composition: what the samplers / `update_parameters` do with the values they receive is C03 / C04 / C05; "
+        "`n_burn_in_iter >= n_iter` in a personalisation (no draw kept, `torch.stack` of an empty list raises) is not generated; "
+        "the output manager (logging) is not part of the event list (C11)",
         "band edges: bounds are read as the decimal numbers written by the user; a window mean within 1e-6 of a bound "
         "without being equal is counted as ambiguous and excluded from the predicate (never from the bitwise comparison)",
     ],
@@ -766,6 +783,452 @@ def real_cases(chk):
     return base
 
 
+
+# =====================================================================================================
+# composition of the fit / personalisation loops (Model/FitLoop.lean)
+# =====================================================================================================
+def _nb_expected(n_iter, count, frac):
+    return count if count is not None else int(frac * n_iter)
+
+
+def _burn_kws(count, frac):
+    return dict(n_burn_in_iter=count, n_burn_in_iter_frac=None) if count is not None else dict(n_burn_in_iter_frac=frac)
+
+
+def _ann_tuple(algo, n_iter, a):
+    return (algo, n_iter, a.get("do_annealing", False), a.get("initial_temperature", 10), a.get("n_plateau", 10),
+            a.get("n_iter"), a.get("n_iter_frac", 0.5))
+
+
+def _same(torch, a, b):
+    return a.shape == b.shape and bool(((a == b) | (a.isnan() & b.isnan())).all())
+
+
+def loop_record(env, case):
+    """Run the real fit (and personalisation) of `case`; return the list of recorded runs, each
+    {algo, kind, T0, tinv0, names, events:[...]} with events in call order:
+      ("sample", k, name, temperature_inv) ("mstep", k, memoryless|None, burn_in, n_update_calls) ("keep", k)
+      ("updT", k, temperature, temperature_inv);  k = algo.current_iteration at the time of the call."""
+    import pandas as pd
+    from leaspy.algo.algo_with_annealing import AlgorithmWithAnnealingMixin as AM
+    from leaspy.algo.fit.mcmc_saem import TensorMcmcSaemAlgorithm as FIT
+    from leaspy.algo.personalize.mcmc import McmcPersonalizeAlgorithm as PERS
+    from leaspy.algo.personalize.mean_posterior import MeanPosteriorAlgorithm as MEANP
+    from leaspy.algo.personalize.mode_posterior import ModePosteriorAlgorithm as MODEP
+    from leaspy.io.data import Data
+    from leaspy.models import model_factory
+    from leaspy.samplers.gibbs import AbstractPopulationGibbsSampler as POPS
+    from leaspy.samplers.gibbs import IndividualGibbsSampler as INDS
+    from leaspy.utils.weighted_tensor import WeightedTensor
+    from leaspy.variables.state import State
+    torch = env["torch"]
+    df = pd.read_csv(core.REPO / "tests/_data/data_mock/multivariate_data.csv")
+    data = Data.from_dataframe(df)
+    runs = []
+    cur = {"run": None, "depth": 0}
+
+    def tens(v):
+        return (v.weighted_value if isinstance(v, WeightedTensor) else v).detach().clone()
+
+    orig = dict(ia=AM._initialize_annealing, ut=AM._update_temperature, ms=FIT._maximization_step,
+                ps=POPS.sample, is_=INDS.sample, gtv=State.get_tensor_value,
+                cm=MEANP._compute_individual_parameters_from_samples_torch,
+                co=MODEP._compute_individual_parameters_from_samples_torch)
+
+    def ia(self):
+        orig["ia"](self)
+        kind = "pers" if isinstance(self, PERS) else "fit"
+        cur["run"] = dict(algo=str(getattr(self.name, "value", self.name)), kind=kind, obj=self, T0=self.temperature,
+                          tinv0=self.temperature_inv, events=[], post={}, prevS=None, final=None,
+                          sampler_names=sorted(self.samplers or {}))
+        runs.append(cur["run"])
+
+    def ut(self):
+        orig["ut"](self)
+        r = cur["run"]
+        if r is not None and r["obj"] is self:
+            r["events"].append(("updT", self.current_iteration, self.temperature, self.temperature_inv))
+
+    def make_sample(o):
+        def sample(self, state, *a, **kw):
+            r = cur["run"]
+            if r is not None:
+                tinv = kw["temperature_inv"] if "temperature_inv" in kw else (a[0] if a else None)
+                r["events"].append(("sample", r["obj"].current_iteration, self.name, tinv))
+            cur["depth"] += 1
+            try:
+                out = o(self, state, *a, **kw)
+            finally:
+                cur["depth"] -= 1
+            if r is not None and r["kind"] == "pers":
+                # values after the (so far) last sampler call of this iteration
+                r["post"][r["obj"].current_iteration] = {n: state[n].detach().clone() for n in r["ind_names"]}
+            return out
+        return sample
+
+    def ms(self, model, state):
+        r = cur["run"]
+        seen = dict(s=None, S=None, burn=None, n=0)
+        o_css, o_up = model.compute_sufficient_statistics, model.update_parameters
+
+        def css(st):
+            out = o_css(st)
+            seen["s"] = {k: tens(v) for k, v in out.items()}
+            return out
+
+        def up(st, ss, *a, **kw):
+            seen["S"] = {k: tens(v) for k, v in ss.items()}
+            seen["burn"] = kw["burn_in"] if "burn_in" in kw else (a[0] if a else None)
+            seen["n"] += 1
+            return o_up(st, ss, *a, **kw)
+
+        model.compute_sufficient_statistics, model.update_parameters = css, up
+        try:
+            orig["ms"](self, model, state)
+        finally:
+            del model.compute_sufficient_statistics, model.update_parameters
+        ml, amb = None, False
+        if seen["s"] is not None and seen["S"] is not None:
+            ml = set(seen["s"]) == set(seen["S"]) and all(_same(torch, seen["S"][k], seen["s"][k]) for k in seen["s"])
+            pS = r["prevS"] if r is not None else None
+            # all proposals rejected and nothing kept from before: the convex combination may reproduce the current statistics
+            amb = bool(ml and pS is not None and set(pS) == set(seen["s"]) and all(_same(torch, pS[k], seen["s"][k]) for k in pS))
+        if r is not None and r["obj"] is self:
+            r["events"].append(("mstep", self.current_iteration, ml, None if seen["burn"] is None else bool(seen["burn"]), seen["n"], amb))
+            r["prevS"] = seen["S"]
+
+    def gtv(self, name):
+        r = cur["run"]
+        if r is not None and r["kind"] == "pers" and r["final"] is None and cur["depth"] == 0 and name == "nll_attach_ind":
+            r["events"].append(("keep", r["obj"].current_iteration))
+        return orig["gtv"](self, name)
+
+    def make_final(o):
+        def final(self, values, attachments, regularities):
+            r = cur["run"]
+            if r is not None and r["obj"] is self:
+                r["final"] = dict(values={k: v.detach().clone() for k, v in values.items()},
+                                  n_att=int(attachments.shape[0]), n_reg=int(regularities.shape[0]))
+            return o(self, values, attachments, regularities)
+        return final
+
+    kw = dict(dimension=3, source_dimension=2)
+    model = model_factory(case["model"], **kw)
+    from leaspy.variables.specs import IndividualLatentVariable, PopulationLatentVariable
+    fit_kws = dict(n_iter=case["n_iter"], seed=case["seed"], progress_bar=False, annealing=case["annealing"],
+                   random_order_variables=case.get("random_order", True), sampler_pop=case.get("sampler_pop", "Gibbs"),
+                   **_burn_kws(case.get("nb_count"), case.get("nb_frac")))
+    err = None
+    try:
+        AM._initialize_annealing, AM._update_temperature, FIT._maximization_step = ia, ut, ms
+        POPS.sample, INDS.sample, State.get_tensor_value = make_sample(orig["ps"]), make_sample(orig["is_"]), gtv
+        MEANP._compute_individual_parameters_from_samples_torch = make_final(orig["cm"])
+        MODEP._compute_individual_parameters_from_samples_torch = make_final(orig["co"])
+        with core.quiet(), warnings.catch_warnings():
+            warnings.simplefilter("ignore")
+            model.fit(data, "mcmc_saem", **fit_kws)
+            if runs:
+                runs[-1]["expected_names"] = sorted(list(model.dag.sorted_variables_by_type[PopulationLatentVariable])
+                                                    + list(model.dag.sorted_variables_by_type[IndividualLatentVariable]))
+            cur["run"] = None
+            p = case.get("personalize")
+            if p:
+                ind_names = sorted(model.dag.sorted_variables_by_type[IndividualLatentVariable])
+                o_ia = ia
+
+                def ia_p(self):
+                    o_ia(self)
+                    cur["run"]["ind_names"] = ind_names
+                    cur["run"]["expected_names"] = ind_names
+                AM._initialize_annealing = ia_p
+                model.personalize(data, p["algo"], n_iter=p["n_iter"], seed=case["seed"], progress_bar=False,
+                                  annealing=p["annealing"], **_burn_kws(p.get("nb_count"), p.get("nb_frac")))
+    except Exception as e:  # noqa
+        err = f"{type(e).__name__}: {e}"
+    finally:
+        AM._initialize_annealing, AM._update_temperature, FIT._maximization_step = orig["ia"], orig["ut"], orig["ms"]
+        POPS.sample, INDS.sample, State.get_tensor_value = orig["ps"], orig["is_"], orig["gtv"]
+        MEANP._compute_individual_parameters_from_samples_torch = orig["cm"]
+        MODEP._compute_individual_parameters_from_samples_torch = orig["co"]
+        cur["run"] = None
+    return runs, err
+
+
+def loop_predicate(env, chk, r, n_iter, nb, ann, random_order=True):
+    """Clauses (a)-(e) of the composition, evaluated on the recording alone. Returns [(what, finding)]."""
+    torch = env["torch"]
+    fails, seen_cats = [], set()
+
+    def add(item):
+        """keep the first failure of each sort (same text up to numbers and names)"""
+        cat = re.sub(r"[-+0-9.e]+|'[^']*'|\[[^\]]*\]", "#", item[0])
+        if cat not in seen_cats:
+            seen_cats.add(cat)
+            fails.append(item)
+
+    ev = r["events"]
+    names = r["expected_names"]
+    kind = r["kind"]
+    on = bool(ann.get("do_annealing", False))
+    P = ann.get("n_plateau", 10)
+    n_a = expected_na(_ann_tuple(r["algo"], n_iter, ann)) if on else None
+    # (c) shape and order of every iteration
+    by_k = {}
+    for e in ev:
+        by_k.setdefault(e[1], []).append(e)
+    ks = [e[1] for e in ev]
+    if ks != sorted(ks) or sorted(by_k) != list(range(1, n_iter + 1)):
+        add((f"{r['algo']}: events recorded for iterations {sorted(by_k)[:8]}… (expected 1..{n_iter}, in order)", None))
+    T_after = {0: r["T0"]}
+    for k in range(1, n_iter + 1):
+        es = by_k.get(k, [])
+        kinds = [e[0] for e in es]
+        called = [e[2] for e in es if e[0] == "sample"]
+        for n in names:
+            if called.count(n) != 1:
+                add((f"{r['algo']} iteration {k}: sampler of latent variable '{n}' called {called.count(n)} times (expected exactly once)", None))
+        extra = [n for n in called if n not in names]
+        if extra:
+            add((f"{r['algo']} iteration {k}: sampler calls for {extra} which are not latent variables of the model", None))
+        if not random_order and called != names:
+            add((f"{r['algo']} iteration {k}: random_order_variables=False but samplers called in order {called}", None))
+        mid = "mstep" if kind == "fit" else "keep"
+        want_mid = 1 if (kind == "fit" or k > nb) else 0
+        if kinds.count(mid) != want_mid:
+            add((f"{r['algo']} iteration {k}: " + (f"{kinds.count('mstep')} maximisation steps (expected exactly one)" if kind == "fit" else
+                          f"draws {'kept' if kinds.count('keep') else 'not kept'} (memory-less phase is k<={nb}: kept iff k>{nb})"), None))
+        if kinds.count("updT") != 1:
+            add((f"{r['algo']} iteration {k}: _update_temperature called {kinds.count('updT')} times (expected exactly once)", None))
+        want_order = ["sample"] * len(called) + [mid] * kinds.count(mid) + ["updT"] * kinds.count("updT")
+        if kinds != want_order:
+            add((f"{r['algo']} iteration {k}: calls in order {_runs_of(kinds)}, expected all samplers, then "
+                          f"{'the maximisation step' if kind == 'fit' else 'the keep-the-draws step'}, then the temperature update", None))
+        for e in es:
+            if e[0] == "updT":
+                T_after[k] = e[2]
+                if not (e[2] != 0 and e[3] == 1 / e[2]):
+                    add((f"{r['algo']} iteration {k}: temperature_inv {e[3]!r} != 1/temperature ({e[2]!r}) after the update", None))
+        # (d) flags of the maximisation step
+        for e in es:
+            if e[0] == "mstep":
+                _, _, ml, burn, n_up, amb = e
+                if n_up != 1:
+                    add((f"{r['algo']} iteration {k}: update_parameters called {n_up} times in one maximisation step", None))
+                    continue
+                if burn != (k <= nb):
+                    add((f"{r['algo']} iteration {k}: update_parameters told burn_in={burn}, memory-less phase is k<={nb}", None))
+                if amb:
+                    chk.tag("loop_memoryless_ambiguous", "excluded")
+                elif ml != (k <= nb + 1):
+                    add((f"{r['algo']} iteration {k}: statistics handed to the maximisation are "
+                                  f"{'the current ones' if ml else 'not the current ones'}; memory-less iff k<={nb}+1", None))
+    # (a) inverse temperature received = 1 / (temperature after k-1 updates);  (b) envelope
+    prev_t = None
+    for k in range(1, n_iter + 1):
+        tinvs = [e[3] for e in by_k.get(k, []) if e[0] == "sample"]
+        if (k - 1) not in T_after:
+            continue
+        Tprev = T_after[k - 1]
+        for t in tinvs:
+            if isinstance(t, bool) or not isinstance(t, (int, float)):
+                add((f"{r['algo']} iteration {k}: temperature_inv passed to a sampler is {t!r}", None))
+                break
+            if t != 1 / Tprev:
+                add((f"{r['algo']} iteration {k}: a sampler received temperature_inv={t!r}, but the temperature after "
+                              f"{k-1} updates is {Tprev!r} (1/T = {1/Tprev!r})", None))
+                break
+            if not (0 < t <= 1):
+                add((f"{r['algo']} iteration {k}: temperature_inv={t!r} outside (0, 1]", "F5c" if (P == 1 and ann.get("initial_temperature", 10) < 1) else None))
+                break
+            if prev_t is not None and t < prev_t:
+                add((f"{r['algo']} iteration {k}: temperature_inv decreases {prev_t!r} -> {t!r}", None))
+                break
+            if (not on or (n_a is not None and k > n_a)) and t != 1:
+                fid = "F5b" if (on and P == 1 and ann.get("initial_temperature", 10) > 1) else None
+                add((f"{r['algo']} iteration {k}: temperature_inv={t!r} != 1 "
+                              + (f"after the {n_a} annealing iterations" if on else "without annealing"), fid))
+                break
+            prev_t = t
+    if kind == "fit" and by_k.get(1) and on:
+        t1 = [e[3] for e in by_k[1] if e[0] == "sample"]
+        T0 = ann.get("initial_temperature", 10)
+        if t1 and isinstance(t1[0], (int, float)) and t1[0] != 1 / T0:
+            add((f"{r['algo']}: first iteration samples at temperature_inv={t1[0]!r}, initial temperature is {T0!r}", None))
+    # (e) personalisation: what is kept
+    if kind == "pers":
+        f = r["final"]
+        if f is None:
+            add((f"{r['algo']}: the kept draws were never aggregated", None))
+        else:
+            want = max(n_iter - nb, 0)
+            if f["n_att"] != want or f["n_reg"] != want or any(v.shape[0] != want for v in f["values"].values()):
+                add((f"{r['algo']}: {f['n_att']} draws kept for n_iter={n_iter}, n_burn_in_iter={nb} (expected {want})", None))
+            else:
+                for n, v in f["values"].items():
+                    for j in range(want):
+                        post = r["post"].get(nb + 1 + j, {}).get(n)
+                        if post is None or not _same(torch, v[j], post):
+                            add((f"{r['algo']}: kept draw {j} of '{n}' is not the value after the samplers of iteration {nb+1+j}", None))
+                            break
+                    else:
+                        continue
+                    break
+    return fails
+
+
+def _runs_of(kinds):
+    out = []
+    for x in kinds:
+        if out and out[-1][0] == x:
+            out[-1][1] += 1
+        else:
+            out.append([x, 1])
+    return " ".join(f"{x}x{n}" for x, n in out)
+
+
+def loop_canon(r, n_iter):
+    """The recording in the driver's syntax, and the `order=` rows for the request."""
+    names = r["expected_names"]
+    rank = {n: i for i, n in enumerate(names)}
+    rows, toks, cur_k = [], [], None
+    for e in r["events"]:
+        if e[1] != cur_k:
+            cur_k = e[1]
+            rows.append([])
+            toks.append([])
+        if e[0] == "sample":
+            rows[-1].append(rank.get(e[2], 999))
+            toks[-1].append(f"s{rank.get(e[2], 999)}@{fmt_float(float(e[3])) if isinstance(e[3], (int, float)) else '?'}")
+        elif e[0] == "mstep":
+            toks[-1].append(f"m{'?' if e[2] is None else int(e[2])}{'?' if e[3] is None else int(e[3])}")
+        elif e[0] == "keep":
+            toks[-1].append("k1")
+        elif e[0] == "updT":
+            if r["kind"] == "pers" and "k1" not in toks[-1]:
+                toks[-1].append("k0")
+            toks[-1].append(f"T@{fmt_float(float(e[2]))}")
+    if r["kind"] == "pers":
+        for t in toks:
+            if not any(x.startswith("k") for x in t):
+                t.append("k0")
+    canon = "ok it=" + (";".join(",".join(t) if t else "_" for t in toks) if toks else "_")
+    order = ";".join(",".join(map(str, row)) if row else "_" for row in rows) if rows else "_"
+    return canon, order
+
+
+def loop_request(r, n_iter, nb, ann, order):
+    c = _ann_tuple(r["algo"], n_iter, ann)
+    _, _, on, T0, P, na, frac = c
+    return (f"loop kind={r['kind']} niter={n_iter} nb={nb} nvars={len(r['expected_names'])} on={1 if on else 0} "
+            f"t0={fmt_float(float(T0))} P={P} na={'none' if na is None else na} "
+            f"frac={'none' if frac is None else fmt_float(float(frac))} clamp=1 order={order}")
+
+
+def _short_loop(s, n=900):
+    def tok(t):
+        if "@" in t:
+            h, v = t.split("@")
+            try:
+                return f"{h}@{parse_float(v)!r}"
+            except Exception:  # noqa
+                return t
+        return t
+    if s.startswith("ok it="):
+        s = "ok it=" + ";".join(",".join(tok(t) for t in row.split(",")) for row in s[6:].split(";"))
+    return s if len(s) <= n else s[:n] + "…"
+
+
+def loop_run_case(chk, env, case):
+    """One real fit (+ personalisation): every sampler call, maximisation step, kept draw and temperature update in
+    call order; clauses (a)-(e) on the recording; event list compared with `Model/FitLoop.lean`."""
+    runs, err = loop_record(env, case)
+    if err is not None:
+        chk.impl_failure(case, f"valid configuration aborted: {err}")
+    specs = [(case["n_iter"], _nb_expected(case["n_iter"], case.get("nb_count"), case.get("nb_frac")), case["annealing"],
+              case.get("random_order", True))]
+    p = case.get("personalize")
+    if p:
+        specs.append((p["n_iter"], _nb_expected(p["n_iter"], p.get("nb_count"), p.get("nb_frac")), p["annealing"], True))
+    if err is None and len(runs) != len(specs):
+        chk.impl_failure(case, f"_initialize_annealing called {len(runs)} times for {len(specs)} algorithm runs")
+    reqs, want = [], []
+    nontriv = False
+    for r, (n_iter, nb, ann, ro) in zip(runs, specs):
+        if "expected_names" not in r:
+            continue
+        for what, fid in loop_predicate(env, chk, r, n_iter, nb, ann, ro)[:6]:
+            chk.impl_failure(case, what, finding=fid)
+        canon, order = loop_canon(r, n_iter)
+        reqs.append(loop_request(r, n_iter, nb, ann, order))
+        want.append((canon, f"{r['algo']}: events of the {'fit' if r['kind'] == 'fit' else 'personalisation'} loop "
+                            f"(sampler calls with their temperature_inv, maximisation/keep step, temperature update)"))
+        tinvs = {e[3] for e in r["events"] if e[0] == "sample"}
+        nontriv = nontriv or len(tinvs) > 1 or 0 < nb < n_iter
+        chk.tag("loop_runs", r["kind"] + (":annealed" if len(tinvs) > 1 else ":flat"))
+    out = chk.model(reqs)
+    for (impl, what), resp in zip(want, out):
+        if impl != resp:
+            chk.disagree(case, _short_loop(impl), _short_loop(resp), what)
+    chk.case(("loop", repr(sorted((k, repr(v)) for k, v in case.items()))), nontrivial=nontriv,
+             sample=case if case.get("seed") == 0 else None, tags={"kind": "loop", "model": case["model"]})
+
+
+def _accepted_annealing(rng, n_iter, allow_single=False):
+    """A configuration accepted by `_initialize_annealing`, with at least one boundary inside the run."""
+    if rng.random() < 0.25:
+        return dict(do_annealing=False)
+    P = rng.choice([2, 2, 3, 3, 4, 5] + ([1] if allow_single else []))
+    T0 = rng.choice([1.5, 2, 3.3, 5, 10])
+    if rng.random() < 0.5:
+        na = rng.randrange(max(P - 1, 1), n_iter + 3)
+        return dict(do_annealing=True, initial_temperature=T0, n_plateau=P, n_iter=na, n_iter_frac=None)
+    fracs = [f for f in (0.3, 0.5, 0.67, 0.8, 1.0) if int(f * n_iter) >= max(P - 1, 1)]
+    if not fracs:
+        return dict(do_annealing=True, initial_temperature=T0, n_plateau=2, n_iter=max(1, n_iter // 2), n_iter_frac=None)
+    return dict(do_annealing=True, initial_temperature=T0, n_plateau=P, n_iter_frac=rng.choice(fracs))
+
+
+def loop_cases(chk):
+    rng = chk.rng
+    cases = [
+        # hand-picked: boundary at every second iteration, burn-in ends in the middle of the annealing
+        dict(kind="loop", model="logistic", n_iter=9, seed=0, nb_count=3, nb_frac=None, random_order=True,
+             annealing=dict(do_annealing=True, initial_temperature=4, n_plateau=4, n_iter=7, n_iter_frac=None),
+             personalize=dict(algo="mean_posterior", n_iter=8, nb_count=None, nb_frac=0.5,
+                              annealing=dict(do_annealing=True, initial_temperature=5, n_plateau=3, n_iter=4, n_iter_frac=None))),
+        dict(kind="loop", model="linear", n_iter=6, seed=1, nb_count=None, nb_frac=0.9, random_order=False,
+             annealing=dict(do_annealing=False),
+             personalize=dict(algo="mode_posterior", n_iter=7, nb_count=2, nb_frac=None,
+                              annealing=dict(do_annealing=True, initial_temperature=2, n_plateau=2, n_iter_frac=0.5))),
+        # period 1: the temperature moves at every iteration, burn-in 0 (iteration 1 is the only memory-less one)
+        dict(kind="loop", model="logistic", n_iter=7, seed=2, nb_count=0, nb_frac=None, random_order=True,
+             annealing=dict(do_annealing=True, initial_temperature=10, n_plateau=5, n_iter=4, n_iter_frac=None),
+             personalize=dict(algo="mean_posterior", n_iter=6, nb_count=0, nb_frac=None,
+                              annealing=dict(do_annealing=True, initial_temperature=3.3, n_plateau=4, n_iter=3, n_iter_frac=None))),
+    ]
+    n_random = 14 if chk.tier == "thorough" else 5
+    for i in range(n_random):
+        n_iter = rng.randrange(6, 26)
+        if rng.random() < 0.5:
+            nb_count, nb_frac = rng.choice([0, 1, 2, n_iter // 2, n_iter - 2, n_iter - 1, n_iter, n_iter + 3]), None
+        else:
+            nb_count, nb_frac = None, rng.choice([0.0, 0.1, 0.5, 0.9, 1.0])
+        pers = None
+        if rng.random() < 0.8:
+            pn = rng.randrange(6, 21)
+            if rng.random() < 0.5:
+                pc, pf = rng.choice([0, 1, pn // 2, pn - 2, pn - 1]), None
+            else:
+                pc, pf = None, rng.choice([0.0, 0.2, 0.5, 0.8])
+            pers = dict(algo=rng.choice(["mean_posterior", "mode_posterior"]), n_iter=pn, nb_count=pc, nb_frac=pf,
+                        annealing=_accepted_annealing(rng, pn))
+        cases.append(dict(kind="loop", model=rng.choice(["logistic", "linear"]), n_iter=n_iter, seed=100 + i,
+                          nb_count=nb_count, nb_frac=nb_frac, random_order=rng.random() < 0.8,
+                          sampler_pop=rng.choice(["Gibbs", "FastGibbs", "Metropolis-Hastings"]),
+                          annealing=_accepted_annealing(rng, n_iter, allow_single=(i == 0)), personalize=pers))
+    return cases
+
+
 # =====================================================================================================
 def probe_findings(chk, env):
     listed = {f["id"]: f for f in chk.findings}
@@ -793,7 +1256,12 @@ def run(chk: core.Check):
                 "a refusal, or a single-plateau run. scale: real samplers with injected decisions — every 0/1 history of length 2L+1 "
                 "for window L=1..4 (L=5: length 10) on a one-block sampler with bounds on attainable means, edge windows for L=25/20/10/8 "
                 "on multi-block samplers, random multi-block histories; non-trivial = the scale changed at least once. "
-                "real: short fits/personalisations with recorded schedules. Distinct by full configuration + history.")
+                "real: short fits/personalisations with recorded schedules. "
+                "loop: real fits of 6-25 iterations (+ mean/mode-posterior personalisations of 6-20) on the 5-individual mock cohort, "
+                "3 hand-picked (boundary every 1-2 iterations, burn-in 0 / inside the annealing, fixed order) + random "
+                "(annealing on/off, explicit count or fraction of burn-in incl. 0, n-1, n, >n, three population sampler kinds); "
+                "non-trivial = the samplers saw at least two different inverse temperatures or the burn-in ends inside the run. "
+                "Distinct by full configuration + history.")
     probe_findings(chk, env)
     # corpus first
     corpus = core.load_corpus(PROP)
@@ -805,6 +1273,8 @@ def run(chk: core.Check):
     check_std_cases(chk, env, s_cases)
     for case in real_cases(chk):
         real_run_case(chk, env, case)
+    for case in [c for c in corpus if c.get("kind") == "loop"] + loop_cases(chk):
+        loop_run_case(chk, env, case)
 
 
 def replay(chk: core.Check, payload):
@@ -819,5 +1289,7 @@ def replay(chk: core.Check, payload):
         check_std_cases(chk, env, [{k: v for k, v in case.items() if k != "kind"}])
     elif case.get("kind") == "real":
         real_run_case(chk, env, case)
+    elif case.get("kind") == "loop":
+        loop_run_case(chk, env, case)
     else:
         chk.note(f"unknown case kind {case.get('kind')!r}")
